@@ -367,6 +367,16 @@ Interpolation_2D::Interpolation_2D()
 Interpolation_2D::Interpolation_2D(std::vector<double> x_val, std::vector<double> y_val, std::vector<std::vector<double>> func_values, double x_dim, double y_dim, double f_dim)
 : N_x(x_val.size()), N_y(y_val.size()), x_values(x_val), y_values(y_val), function_values(func_values), prefactor(1.0)
 {
+	// The table needs one row per x value and one entry per y value in each row.
+	bool valid_table = (function_values.size() == N_x);
+	for(unsigned int i = 0; valid_table && i < N_x; i++)
+		valid_table = (function_values[i].size() == N_y);
+	if(!valid_table)
+	{
+		std::cerr << "Error in libphysica::Interpolation_2D::Interpolation_2D(): The table of function values does not match the lists of x and y values." << std::endl;
+		std::exit(EXIT_FAILURE);
+	}
+
 	// Transform units
 	if(x_dim > 0.0)
 		for(unsigned int i = 0; i < N_x; i++)
